@@ -11,3 +11,5 @@ import GoMC.Props.C01
 #print axioms GoMC.Props.C01.C01_encode_conforms_partial
 #print axioms GoMC.Props.C01.C01_encode_conforms_value_partial
 #print axioms GoMC.Props.C01.C01_decode_typed_partial
+#print axioms GoMC.Props.C01.C01_marshal_history_conforms_partial
+#print axioms GoMC.Props.C01.C01_encoder_history_conforms_partial
